@@ -22,7 +22,7 @@ import ast
 from fractions import Fraction
 
 from .core import AnalysisError, unparse
-from .poly import Rat, as_rat, sqrt_of, func_atom, atom_info, split_content, _frac_gcd, p_content
+from .poly import Rat, as_rat, sqrt_of, func_atom, atom_info, split_content, _frac_gcd, p_content, single_atom, mono_items
 
 
 class Arr:
@@ -74,13 +74,10 @@ class Arr:
             d = self.data
             for i in idx:
                 d = d[i]
-            if not isinstance(d, Rat) or len(d.num) != 1 or d.den != {(): 1}:
-                return None
-            (m, c), = d.num.items()
-            if c != 1 or len(m) != 1 or m[0][1] != 1:
+            a = single_atom(d) if isinstance(d, Rat) else None
+            if a is None:
                 return None
             suffix = "[%s]" % ",".join(str(i) for i in idx)
-            a = m[0][0]
             if not a.endswith(suffix):
                 return None
             b = a[:-len(suffix)]
@@ -851,7 +848,8 @@ class Evaluator:
             # parity normalisation: f(-x) = +-f(x)
             neg = False
             if x.num:
-                lead = x.num[sorted(x.num)[0]]
+                from .poly import _sorted_monos
+                lead = x.num[_sorted_monos(x.num)[0]]
                 if lead < 0:
                     neg = True
                     x = -x
@@ -960,20 +958,22 @@ class Evaluator:
 
 
 def array_content(A: Arr):
-    """common positive content q*pi^k of all entries; -> (content Rat, primitive Arr)"""
+    """common positive content q*prod(scale atoms^k) of all entries; -> (content Rat, primitive Arr)"""
     from fractions import Fraction as F
     flat = [scalar(x) for x in A.flat()]
     q = F(0)
-    k = None
+    ks = None
     for x in flat:
         if x.is_zero():
             continue
         _c, qx, kx, _p = split_content(x)
         q = _frac_gcd(q, qx)
-        k = kx if k is None else min(k, kx)
+        ks = dict(kx) if ks is None else {a: min(k, kx[a]) for a, k in ks.items() if a in kx and (k > 0) == (kx[a] > 0)}
     if not q:
         return Rat.const(1), A
-    content = Rat.const(q) * (Rat.atom("pi") ** k if k else Rat.const(1))
+    content = Rat.const(q)
+    for a, k in (ks or {}).items():
+        content = content * (Rat.atom(a) ** k)
 
     def rec(d):
         return [rec(x) for x in d] if isinstance(d, list) else scalar(d) / content
